@@ -79,7 +79,7 @@ CHECKS = {
  "C02": dict(
    text="Lean theorems about the executable store model: for every state reachable by put/delete/reopen under any configuration, the startup scan of the directory rebuilds an index under which every key reads "
         "exactly as before the close (deleted keys stay deleted), and reopening is idempotent; proof via 'the scan = last record wins' over all records in (file id, position) order. Tied to the real store "
-        "by histories with overwrites, deletes of present/absent keys, re-sets, >=12 files, reopen cycles at arbitrary positions; reads, index and counters compared with the model and a plain map.",
+        "by histories with overwrites, deletes of present/absent keys, re-sets, >=12 files, reopen cycles at arbitrary positions (a third of them with merge passes in between, as the store merges on its own; the merge+restart theorems are C05's, and defect D3 shows here as a known finding); racing pairs of operations followed by two restarts; wall-clock steps; reads, index and counters compared with the model and a plain map.",
    note=COMMON_NOTE + "Files at record granularity (byte layout Store/Codec.lean validated through trace hashes and crash images); directory listing order and numeric id parsing are modelled by an ascending sort.",
    technique="Lean 4 proof (recovery invariant: rebuilt index = index, induction over operations) + differential correspondence with the real store",
    ref="DESIGN.md §5 C02"),
